@@ -26,6 +26,12 @@ inductive Err where
   | format              -- str.format failure (unknown name, stray brace)
   deriving DecidableEq, Repr
 
+instance instDecEqExcept {ε α} [DecidableEq ε] [DecidableEq α] : DecidableEq (Except ε α)
+  | .ok a, .ok b => if h : a = b then isTrue (by rw [h]) else isFalse (by intro h'; cases h'; exact h rfl)
+  | .error a, .error b => if h : a = b then isTrue (by rw [h]) else isFalse (by intro h'; cases h'; exact h rfl)
+  | .ok _, .error _ => isFalse (by intro h; cases h)
+  | .error _, .ok _ => isFalse (by intro h; cases h)
+
 /-- `shlex.whitespace` = `' \t\r\n'`. -/
 def isWs (c : Char) : Bool := c == ' ' || c == '\t' || c == '\r' || c == '\n'
 
